@@ -18,7 +18,9 @@
        child of the incoming revision, floor = max(maxValueForSource(me) of both vectors), v = hlc.Now(floor) on the
        receiver's clock, newHLV = local.Copy(); newHLV.MergeWithIncomingHLV((me, v), incoming) -- the C10 model of
        MergeWithIncomingHLV, reused.  The tombstone flag of the stored document is the INCOMING revision's flag
-       (resolveDocMerge does not touch newDoc.Deleted); [phys] is the wall-clock reading of that write.
+       (resolveDocMerge does not touch newDoc.Deleted): a merge against an incoming TOMBSTONE is stored as a tombstone
+       with the new version and the merged body is dropped (seen on the real replicator, seed 8); [phys] is the
+       wall-clock reading of that write.
      a live revision whose body is {"_deleted":true} -- what a resolver answering null leaves behind -- is refused
        by every receiver (reserved property): the transfer fails, nothing is stored.
    Two-peer inter-Sync-Gateway replication is the instance peers {1, 2}, pulls = GXfer 2 1 (Some f), pushes =
@@ -69,7 +71,7 @@ Definition clash_merge (mb : N) (l i : vdoc) : bool := on_branch (mb :: d_rev i)
 Definition merged_doc (h : hlv) (mb : N) (l i : vdoc) : vdoc :=
   if clash_merge mb l i then tombstoned h l
   else if null_merge_is_delete && (mb =? del_digest_body) then mkD h tomb_body true (mb :: d_rev i)
-  else mkD h mb (d_del i) (mb :: d_rev i).
+  else mkD h (if d_del i then tomb_body else mb) (d_del i) (mb :: d_rev i).
 
 (* what no receiver accepts: a live revision with the body {"_deleted":true} *)
 Definition unsendable (i : vdoc) : bool := negb (d_del i) && (d_body i =? del_digest_body).
